@@ -114,7 +114,9 @@ OutLife(m, f, l) ==
         \* frame types permitted in E's send state
         m4 == IF s = 0 \/ ty \in {"CONTINUATION", "PRIORITY"} THEN m3
               ELSE IF x.o = "rst"
-              THEN Viol(Hit(m3, "C04.after_rst"), "C04.after_rst", l, s, ty)
+              THEN Viol(Hit(m3, "C04.after_rst"), "C04.after_rst", l, s,
+                        IF ty = "RST_STREAM" /\ x.rstOutCode = REFUSED_STREAM /\ f.ch = 0 /\ f.cl = STREAM_CLOSED /\ x.want = ""
+                        THEN "stream_closed_after_refused" ELSE ty)
               ELSE IF x.o = "es"
               THEN Check(m3, "C04.after_es", ty \in {"WINDOW_UPDATE", "RST_STREAM"}, l, s, ty)
               ELSE IF x.rstBound
@@ -124,10 +126,10 @@ OutLife(m, f, l) ==
               THEN Check(m4, "C04.data_state", x.o = "open" /\ x.fin, l, s, "DATA before final HEADERS")
               ELSE m4
         m6 == IF ty = "PUSH_PROMISE"
-              THEN Check(m5, "C04.push",
+              THEN Check(Check(m5, "C04.push_parent",
                          /\ m.role = "s" /\ ~LocallyInit(m, s)
-                         /\ x.i # "idle" /\ x.o \in {"idle", "open"} /\ ~x.rstBound
-                         /\ f.prom % 2 = 0 /\ f.prom > m.maxLocal, l, s, "PUSH_PROMISE")
+                         /\ x.i # "idle" /\ x.o \in {"idle", "open"} /\ ~x.rstBound, l, s, "PUSH_PROMISE on a parent that is not open"),
+                         "C04.push_id_order", f.prom % 2 = 0 /\ f.prom > m.maxLocal, l, s, "promised_id_order")
               ELSE m5
     IN m6
 
@@ -224,7 +226,7 @@ OutResets(m, f, l) ==
     IF f.ty = "RST_STREAM" /\ f.bad = ""
     THEN LET s == f.sid
              x == S(m, s)
-             m1 == Check(m, "C17.single_rst", x.rstOut = 0, l, s, "second RST_STREAM")
+             m1 == IF x.want # "" THEN Check(m, "C17.single_rst", x.rstOut = 0, l, s, "second RST_STREAM") ELSE m
              m2 == IF x.i = "rst" /\ x.rstBound
                    THEN Viol(Hit(m1, "C17.rst_for_rst"), "C17.rst_for_rst", l, s, "RST_STREAM in response to RST_STREAM")
                    ELSE m1
